@@ -268,12 +268,19 @@ type UpState struct {
 type SelectEvent struct {
 	At      time.Duration
 	Step    int
+	EndStep int // step at which the call returned: two calls overlap if their [Step, EndStep] intersect
+	EndAt   time.Duration
+	// Exclusive: no other goroutine and no simulator event ran between the two snapshots
+	Exclusive bool
 	Client  string
 	Before  []UpState
 	After   []UpState
 	Result  int // index into the pool, -1 = nil
 	By      string
-	Stable  bool // availability identical before and after the call
+	Stable  bool // availability and connection counts identical before and after the call
+	// AvailStable: availability identical before and after the call (connection counts may
+	// have moved): enough to judge membership of the result in the available set
+	AvailStable bool
 }
 
 // RecSelector wraps the shipped policy and records every selection.
@@ -292,13 +299,24 @@ func snapshot(pool l4proxy.UpstreamPool) []UpState {
 }
 
 func (r *RecSelector) Select(pool l4proxy.UpstreamPool, cx *layer4.Connection) *l4proxy.Upstream {
-	ev := SelectEvent{At: r.E.S.Elapsed(), Step: r.E.S.StepNow(), Client: cx.Conn.RemoteAddr().String(), By: r.E.S.Name(), Before: snapshot(pool), Result: -1}
+	r.E.S.NoYield++
+	me := r.E.S.Name()
+	ev := SelectEvent{At: r.E.S.Elapsed(), Step: r.E.S.StepNow(), Client: cx.Conn.RemoteAddr().String(), By: me, Before: snapshot(pool), Result: -1}
+	p0 := r.E.S.ParksOf(me)
+	r.E.S.NoYield--
 	res := r.Inner.Select(pool, cx)
+	r.E.S.NoYield++
 	ev.After = snapshot(pool)
-	ev.Stable = true
+	ev.EndStep, ev.EndAt = r.E.S.StepNow(), r.E.S.Elapsed()
+	ev.Exclusive = ev.EndStep-ev.Step == r.E.S.ParksOf(me)-p0
+	r.E.S.NoYield--
+	ev.Stable, ev.AvailStable = true, true
 	for i := range ev.Before {
 		if ev.Before[i].Available != ev.After[i].Available || ev.Before[i].Conns != ev.After[i].Conns {
 			ev.Stable = false
+		}
+		if ev.Before[i].Available != ev.After[i].Available {
+			ev.AvailStable = false
 		}
 	}
 	for i, u := range pool {
